@@ -203,3 +203,13 @@ Theorem C03_unlocked_lost_update :
     (sh st, fd st) <> seqrun f op 50 [false; true] /\ sh st = 100.
 Proof. exact unlocked_lost_update. Qed.
 Print Assumptions C03_unlocked_lost_update.
+
+(** every update unit the cache stores and hands to the feed carries no delete
+    (so the consumer model of C03Check -- update part first, then the deletes of
+    the same notification, as the gNMI client applies them -- meets only
+    notifications with one of the two; the clause [n_del v = []] of [good_unit]
+    is therefore no assumption on the inputs) *)
+Theorem C03_units_carry_no_delete :
+  forall n m, In (UUpd m) (units n) -> n_del m = [].
+Proof. exact units_carry_no_delete. Qed.
+Print Assumptions C03_units_carry_no_delete.
